@@ -1186,6 +1186,9 @@ func genC06(tier string, emit func(any)) {
 	extra := []drv.Opts{
 		{ZeroEOF: true, IndexPad: 2}, {ZeroEOF: true, IndexPad: 2000, DataPad: 3}, {Whole: true}, {AllowDup: true}, {V1: true, ZeroEOF: true}, {V1: true, StoreID: true},
 		{Whole: true, AllowDup: true, StoreID: true},
+		// CARv1 mode with a data padding option (which CARv1 mode ignores): the file is shorter than the CARv2
+		// data offset the option implies while it already holds acknowledged blocks
+		{V1: true, DataPad: 300}, {V1: true, DataPad: 1413, StoreID: true},
 	}
 	sessions := [][]string{
 		{}, {"F"}, {"put:a"}, {"put:a", "F"}, {"put:a", "put:b"}, {"put:a", "put:b", "F"}, {"put:e", "put:a", "F"},
@@ -1322,6 +1325,13 @@ func genC06(tier string, emit func(any)) {
 				emitGen2Complete(front, rootSet, o, g1Complete[:2])
 				emitGen2Crashed(front, rootSet, o, g1Crashed[:2], g2Crashed[:1])
 			}
+		}
+		// no roots + CARv1 mode + tiny identity blocks: a file of a few dozen bytes (shorter than a CARv2's fixed
+		// 51-byte prelude) that holds acknowledged blocks
+		for _, o := range []drv.Opts{{V1: true, StoreID: true}, {V1: true, StoreID: true, DataPad: 3}} {
+			tiny := [][]string{{"put:i0", "put:i"}, {"put:i0", "put:i0", "F"}, {"put:i", "put:e", "put:i0"}}
+			emitSessions(front, "empty", o, tiny)
+			emitGen2Complete(front, "empty", o, tiny[:2])
 		}
 	}
 	// other entry points named by the property: blockstore.OpenReadWrite(path) + FinalizeReadOnly/Close on every
